@@ -39,6 +39,27 @@ CHECKS = {
         design_ref="6.1",
         note=LEVEL_NOTE_COMMON + " Not proved: float32 rounding of metric kernels (tolerance check), the in-range property of candidate arrays (hypothesis of the round theorem, validated by correspondence), the loop composition of nn_descent as a single theorem.",
     ),
+    "C13": dict(
+        technique="Coq proof (every graph-writing kernel is a fold of heap pushes; a push never lowers any rank: count form, shown equivalent to the rank form) + exact kernel correspondence + rank-profile oracle on the API",
+        text=("Theorems in coq/props/C13.v: for every threshold t a push never decreases the number of row entries with distance <= t "
+              "(equivalently, by C13_count_form_is_rank_form, every j-th smallest distance is non-increasing); apply_graph_updates in both "
+              "memory modes, leaf updates and init_random are folds of pushes and therefore keep every row at least as good as before, with no "
+              "assumption on the distance values (covers user-supplied init_dist); the final sort keeps each row's multiset. The heap "
+              "initialisation kernels and the NN-descent layer are compared bit-for-bit with the model; the property itself is evaluated on "
+              "supplied init_graphs, successive rounds and append-only update histories."),
+        design_ref="6.13",
+        note=LEVEL_NOTE_COMMON + " Not proved as a theorem: that update() re-inserts the old rows unchanged before new candidates (exact correspondence of init_from_neighbor_graph + history oracle).",
+    ),
+    "C15": dict(
+        technique="Coq proof (models of the four diversification kernels computed equal to a greedy specification, for every storage and tie order) + bit-exact differential execution incl. generator state + specification oracle on kernel outputs",
+        text=("Theorems in coq/props/C15.v: the greedy flags satisfy the property's iff (dropped iff an earlier kept neighbour at non-zero "
+              "distance is nearer to it than the point is; nearest always kept); forward rows (dense+sparse) are rewritten to exactly the kept "
+              "candidates plus padding; reverse CSR rows are zeroed at exactly the dropped positions for ANY sorting permutation and storage "
+              "order; probability 0 removes nothing; the pinned dense CSR variant is refuted by a computed witness. All four compiled kernels "
+              "are compared with the extracted model on one thread, generator state included, and the specification is re-evaluated on their outputs."),
+        design_ref="6.15",
+        note=LEVEL_NOTE_COMMON + " Probability-1 theorems assume the generator never returns 1.0f (C15_tau_rand_can_return_one shows a state where it does).",
+    ),
 }
 
 REASON_PENDING = "check not built yet in this round (design in DESIGN.md section 6; no claim is made until the check exists)"
